@@ -1,4 +1,4 @@
 SPECIFICATION Spec
-CONSTANTS MaxBr = 3 MaxN = 3 MaxM = 2
+CONSTANTS MaxBr = 3 MaxN = 2 MaxM = 2
 INVARIANT Emitted
 CHECK_DEADLOCK FALSE
